@@ -11,7 +11,7 @@ import copy
 
 import numpy as np
 
-from .. import gen, geom
+from .. import gen, geom, models
 from ..core import signature
 from ..monitor import Monitor
 
@@ -117,7 +117,9 @@ def run_unit(unit, rng, ctx):
     N = len(names)
     U = gen.random_walk(rng, T, N, max_step=0.2)
     if rng.uniform() < 0.5:
-        H = np.array(gen.HOSTILE)
+        # face-adjacent hostile values (0.5 is left out: a step of exactly half a cell has no defined
+        # minimum image, and the derived quantities are compared with the model below)
+        H = np.array([h for h in gen.HOSTILE if h != 0.5])
         sel = rng.uniform(size=U.shape) < 0.1
         U = np.where(sel, np.round(U) + H[rng.integers(len(H), size=U.shape)], U)
     dt = 1e-15
@@ -140,30 +142,44 @@ def run_unit(unit, rng, ctx):
         disp_mode = bool(o.coords_are_displacement)
         desc = None
         try:
+            # model of the derived quantities of this object: minimum-image steps of its frames
+            steps = np.diff(live.P, axis=0, prepend=live.P[:1])
+            steps = steps - np.round(steps)
+            cum = np.cumsum(steps, axis=0)
+
+            def agree(got, want, name):
+                got = np.asarray(got)
+                good = got.shape == want.shape and float(np.abs(got - want).max() if got.size else 0.0) <= 1e-9 * max(1.0, float(np.abs(want).max()) if want.size else 1.0)
+                ctx.check(bool(good), f'after {hist}: {name} of "{live.origin}" (shape {got.shape}) is not what its current frames give (shape {want.shape})', {'history': hist + [name]})
+
             if op == 'positions':
-                _ = o.positions
+                agree(geom.circ_diff(o.positions, live.P) if np.asarray(o.positions).shape == live.P.shape else o.positions, np.zeros_like(live.P) if np.asarray(o.positions).shape == live.P.shape else live.P, 'positions')
                 desc = 'positions'
             elif op == 'displacements':
-                _ = o.displacements
+                agree(o.displacements, steps, 'displacements')
                 desc = 'displacements'
             elif op == 'cumulative':
-                _ = o.cumulative_displacements
+                agree(o.cumulative_displacements, cum, 'cumulative_displacements')
                 desc = 'cumulative_displacements'
             elif op == 'distances':
-                _ = o.distances_from_base_position()
+                agree(o.distances_from_base_position(), np.linalg.norm(cum @ m, axis=2).T, 'distances_from_base_position()')
                 desc = 'distances_from_base_position()'
             elif op == 'msd':
-                _ = o.mean_squared_displacement()
+                agree(o.mean_squared_displacement(), models.msd_model(cum @ m), 'mean_squared_displacement()')
                 desc = 'mean_squared_displacement()'
             elif op == 'len':
-                _ = (len(o), o.total_time, o.get_lattice(), repr(o))
+                ctx.check(len(o) == Tn and abs(o.total_time - Tn * dt) <= 1e-25 and np.allclose(np.asarray(o.get_lattice().matrix), m, atol=1e-12), f'after {hist}: len/total_time/get_lattice of "{live.origin}" are {len(o)}, {o.total_time!r}; expected {Tn}, {Tn * dt!r}', {'history': hist})
+                _ = repr(o)
                 desc = 'len/total_time/get_lattice/repr'
             elif op in ('metrics', 'drift', 'to_volume', 'transitions', 'com', 'apply_drift'):
                 desc = op
                 try:
                     if op == 'metrics':
                         mm = o.metrics()
-                        _ = (mm.tracer_diffusivity(dimensions=3), mm.particle_density(), mm.vibration_amplitude())
+                        dgot = float(mm.tracer_diffusivity(dimensions=3))
+                        dwant = float(np.mean(np.sum((cum[-1] @ m) ** 2, axis=1))) * 1e-20 / (6 * Tn * dt)
+                        ctx.check(abs(dgot - dwant) <= 1e-9 * max(abs(dwant), 1e-300), f'after {hist}: tracer_diffusivity of "{live.origin}" is {dgot!r}, its current frames give {dwant!r}', {'history': hist})
+                        _ = (mm.particle_density(), mm.vibration_amplitude())
                     elif op == 'drift':
                         _ = o.drift(fixed_species=live.names[0])
                     elif op == 'apply_drift':
